@@ -18,6 +18,10 @@ the code for all inputs:
       is / in comparisons
   N8  a local bound once to a call-free expression and read once, in the very next simple statement, where no other
       call is evaluated  -> the expression is substituted for the read
+  N10 `if C: A else: B` where A ends in return / raise / continue / break  ->  `if C: A` followed by B; where only B
+      does  ->  `if not C: B` followed by A
+  N9  `if C: A  REST`, where A and REST both end in return / raise, is an if/else in disguise: the guard branch is chosen
+      by content (the smaller one, else the raising one, else the one under the positive test), not by the author
   N6  `t = E` immediately followed by `return t`, where every binding of the local t is such a pair and t is used
       nowhere else  -> `return E`
 
@@ -201,7 +205,58 @@ def _inline_into(stmt, name, value):
 def _stmts(fn, localish, counts):
     """N5, N6 over every statement list of the function"""
 
+    def leaves(b):
+        return bool(b) and isinstance(b[-1], (ast.Return, ast.Raise))
+
+    def size(b):
+        return sum(1 for s_ in b for x in ast.walk(s_) if isinstance(x, ast.stmt))
+
+    def negative(t):
+        return (isinstance(t, ast.UnaryOp) and isinstance(t.op, ast.Not)) or (isinstance(t, ast.Compare) and len(t.ops) == 1 and isinstance(t.ops[0], (ast.IsNot, ast.NotIn)))
+
+    def guard_form(body):
+        """N9: `if C: A  REST` where A and REST both end in return / raise is an if/else in disguise; the branch written
+        as the guard is chosen by content, not by the author: the smaller one, else the one that ends in `raise`, else
+        the one under the positive test"""
+        for i, s_ in enumerate(body):
+            if isinstance(s_, ast.If) and not s_.orelse and leaves(s_.body) and i + 1 < len(body) and leaves(body[i + 1:]):
+                a_, rest = s_.body, body[i + 1:]
+                ra, rr = isinstance(a_[-1], ast.Raise), isinstance(rest[-1], ast.Raise)
+                if size(a_) != size(rest):
+                    flip = size(rest) < size(a_)
+                elif ra != rr:
+                    flip = rr
+                else:
+                    flip = negative(s_.test)
+                if flip:
+                    new_if = ast.If(test=_nnf(s_.test, True), body=rest, orelse=[])
+                    ast.copy_location(new_if, s_)
+                    return body[:i] + [new_if] + a_
+                return body
+        return body
+
+    def hoist(body):
+        """N10: `if C: A else: B` where A ends in return / raise / continue / break is `if C: A` followed by B"""
+        out = []
+        for s_ in body:
+            LEAVE = (ast.Return, ast.Raise, ast.Continue, ast.Break)
+            if isinstance(s_, ast.If) and s_.orelse and s_.body and isinstance(s_.body[-1], LEAVE):
+                rest = s_.orelse
+                s_.orelse = []
+                out.append(s_)
+                out.extend(hoist(rest))
+            elif isinstance(s_, ast.If) and s_.orelse and isinstance(s_.orelse[-1], LEAVE) and not (len(s_.orelse) == 1 and isinstance(s_.orelse[0], ast.If)):
+                # only the else branch leaves: it becomes the guard
+                rest = s_.body
+                s_.test, s_.body, s_.orelse = _nnf(s_.test, True), s_.orelse, []
+                out.append(s_)
+                out.extend(hoist(rest))
+            else:
+                out.append(s_)
+        return out
+
     def do_list(body):
+        body = guard_form(hoist(body))
         out = []
         i = 0
         while i < len(body):
